@@ -96,6 +96,14 @@ def gen_case(rng, tier):
                 bd.append([d, e])
         if len(bd) >= 3:
             c['bench'] = bd
+    if rng.random() < 0.12:
+        # a whole-dollar curve held in an INTEGER column (as read back from a CSV of whole numbers)
+        c['curve'] = [[d, float(max(1, int(round(e))))] for d, e in c['curve']]
+        if c.get('bench'):
+            c['bench'] = [[d, float(max(1, int(round(e))))] for d, e in c['bench']]
+        c['int_equity'] = True
+        c['moments'] = False
+        c['stream'] = c.get('stream', 'random') + ':integer-column'
     return c
 
 
